@@ -2011,6 +2011,25 @@ class Engine:
             fields[a] = z3.Array(f"attr:{a}!{next(VAL._fresh)}", V, V)
         return st.copy(env=env, heap=heap, fields=fields)
 
+    def propagate_definitions(self, st, clauses):
+        """an exit-invariant clause `v == t` that defines a havocked loop variable v makes later terms speak about t itself (the equality
+        stays among the path facts; this only keeps instantiation syntactic)"""
+        subs = []
+        for g in clauses:
+            g = z3.simplify(g)
+            if not (z3.is_eq(g) and g.num_args() == 2):
+                continue
+            for a, b in ((g.arg(0), g.arg(1)), (g.arg(1), g.arg(0))):
+                # Dict(k) == Dict(t) has been simplified to k == t already; also accept constructor applications on both sides
+                if z3.is_const(a) and a.decl().kind() == z3.Z3_OP_UNINTERPRETED and a.decl().name().startswith('loop_') and a.get_id() not in VAL._subterm_ids(b):
+                    subs.append((a, b))
+                    break
+        if not subs:
+            return st
+        env = {k: (z3.substitute(v, *subs) if z3.is_expr(v) else v) for k, v in st.env.items()}
+        heap = {k: (z3.substitute(v, *subs) if z3.is_expr(v) else v) for k, v in st.heap.items()}
+        return st.copy(env=env, heap=heap)
+
     def loop_contract(self, ordinal):
         loops = getattr(self.contract, 'loops', None) or {}
         return loops.get(ordinal)
@@ -2113,7 +2132,8 @@ class Engine:
         # after the loop
         e = self.havoc_loop_state(st, names, muts, attrs, extra, lc.modifies_ghost if lc is not None else ()).assume(n >= 0)
         if lc is not None:
-            e = e.assume(*[g for (_, g) in lc.inv(self, e, n, st)])
+            clauses = [g for (_, g) in lc.inv(self, e, n, st)]
+            e = e.assume(*clauses)
         q = self.fork(e, z3.BoolVal(True))
         if sm.orelse:
             out += self.block(sm.orelse, e)
